@@ -8,6 +8,7 @@ from ..expr import C, SELF, canon, show, strip_epochs, walk
 from ..intervals import EQ, GT, LT, path_orderings
 from ..model import AnalysisError
 from ..own import BINF, TABLE, cand_of, is_bucket
+from .C03 import ANCHORS as ANCHORS3
 from .C03 import CTXS, bin_drops, candidates_stable, cpaths, insert_flows, presence
 
 EXPL = ("Bounded buckets: every append of an entry to a bucket is dominated by len(bucket) < bucket_size for that bucket "
@@ -212,13 +213,40 @@ def check(prog, rep, tier):
             rep.ok("C15.no-duplicate", f"{ctx}._check_if_present: both candidate buckets examined completely")
         # ------------------------------------------------------------ capacity writers
         okw = True
+        grown = canon(("bin", "*", ("f", SELF, "_cuckoo_capacity", 0), ("f", SELF, "_CuckooFilter__expansion_rate", 0)))
+
+        def cap_ok(v):
+            v = strip_epochs(v)
+            if v[0] == "phi":
+                return cap_ok(v[2]) and cap_ok(v[3])
+            return canon(v) == grown
+
+        def from_callers(helper):
+            """a private helper stores a value handed in by its callers: decided at every call site in the class, helper looked through"""
+            n = 0
+            for g in mro_methods(prog, ctx):
+                if g is helper:
+                    continue
+                plain = cpaths(prog, ctx, g)
+                if not any(e.kind == "call" and e.target is helper for p in plain for e in p.events):
+                    continue
+                for p in paths(prog, ctx, g, inline="deep", force_inline=(helper.qualname,),
+                               no_inline=tuple(a for a in ANCHORS3 if a not in (g.src_name, helper.src_name))):
+                    for e in p.events:
+                        if e.kind == "setfield" and e.name == "_cuckoo_capacity" and e.base == SELF and e.func is helper:
+                            n += 1
+                            if not cap_ok(e.value):
+                                return False
+            return n > 0
+
         for f in mro_methods(prog, ctx):
             for p in cpaths(prog, ctx, f):
                 for e in p.events:
                     if e.kind == "setfield" and e.name == "_cuckoo_capacity" and e.base == SELF:
-                        v = canon(e.value)
-                        allowed = f.src_name in ("__init__", "_parse_footer", "_parse_buckets") or \
-                            v == canon(("bin", "*", ("f", SELF, "_cuckoo_capacity", 0), ("f", SELF, "_CuckooFilter__expansion_rate", 0)))
+                        allowed = f.src_name in ("__init__", "_parse_footer", "_parse_buckets") or cap_ok(e.value)
+                        if not allowed and e.func is f and f.src_name.startswith("_") and not f.src_name.startswith("__") and \
+                                any(n[0] == "p" and n[1] in f.params for n in walk(strip_epochs(e.value))):
+                            allowed = from_callers(f)
                         if not allowed:
                             rep.bad("C15.capacity-writers", f"{ctx}.{f.src_name}", f"capacity = {nshow(e.value)}",
                                     f"capacity is set to {nshow(e.value)}; outside construction/loading it may only be multiplied by the expansion rate", e.where())
